@@ -15,6 +15,14 @@ THEOREMS = [
     "VK.C07_pigeonhole",
     "VK.C07_no_overfill",
     "VK.C07_majority_selected",
+    "VK.stvStep_linked",
+    "VK.electChoice_ge",
+    "VK.applyTransfers_coalition",
+    "VK.psc_step",
+    "VK.psc_loop",
+    "VK.psc_final",
+    "VK.C07_droop_psc_fractional",
+    "VK.C07_irv_majority",
 ]
 RULE = ("cases = STV / IRV with the Droop quota, fractional or random transfer, simultaneous or one-by-one, any "
         "tiebreak, on profiles of untied ranked ballots (2-6 candidates); 50% have a planted solid coalition (a random "
